@@ -21,11 +21,11 @@ def val_to_json(v, world=None):
     if isinstance(v, (set, frozenset)):
         items = sorted((val_to_json(x, world) for x in v), key=lambda j: json.dumps(j, sort_keys=True))
         return {'app': ['$set', items, [], []]}
-    if isinstance(v, App):
-        return {'app': [v.f, [val_to_json(x, world) for x in v.pos], [k for k, _ in v.kw],
-                        [val_to_json(x, world) for _, x in v.kw]]}
     if isinstance(v, Imp):
         return {'imp': [v.f, v.serial, 0, [val_to_json(x, world) for x in v.pos], [k for k, _ in v.kw],
+                        [val_to_json(x, world) for _, x in v.kw]]}
+    if isinstance(v, App):
+        return {'app': [v.f, [val_to_json(x, world) for x in v.pos], [k for k, _ in v.kw],
                         [val_to_json(x, world) for _, x in v.kw]]}
     name = atom_name(v, world)
     if name is not None:
